@@ -356,4 +356,151 @@ theorem handleAbortAttemptEnd_v (a : Nat) (e : Exn) :
 
 end leaves
 
+
+/-! ### requests the monitor follows: one `ask` each -/
+
+@[simp] theorem view_mon (cfg : Cfg) (w : World) : (view cfg w).mon = cur cfg w.trace := rfl
+@[simp] theorem view_flt (cfg : Cfg) (w : World) : (view cfg w).flt = flt w.trace := rfl
+
+/-- the run ends with an exception that is neither an attempt failure nor a report of exhaustion -/
+theorem exc_plain (cfg : Cfg) {w' : World} {e : Exn} (hne : ∀ f, e ≠ .libExhausted f)
+    (hg : e.isException = false ∨ e.isAbort = true ∨ e.isExhausted = true)
+    (hb : (cur cfg w'.trace).bad = false) (hm : flt w'.trace = false → (cur cfg w'.trace).mustOp = false) :
+    Exc cfg e w' := by
+  intro hf
+  refine ⟨hb, hm hf, fun f h => absurd h (hne f), fun _ _ h1 h2 h3 => ?_⟩
+  rcases hg with h | h | h <;> simp_all
+
+/-! #### phases of an attempt (predicates on the view) -/
+
+/-- inside attempt `n`: the operation has been called, the run has not stopped, no backoff yet -/
+def Core (cfg : Cfg) (n : Nat) (v : View) : Prop :=
+  v.mon.ops = n ∧ 1 ≤ n ∧ n ≤ cfg.maxAttempts ∧ v.mon.bad = false ∧ v.flt = false ∧ v.slack = 0 ∧
+  v.stop = none ∧ v.stopOk = true ∧ v.mon.mustOp = false ∧ v.mon.decision = none ∧ v.mon.slept = false ∧
+  v.mon.refused = false
+
+/-- no strategy has been asked in this attempt -/
+def NoStrat (v : View) : Prop :=
+  v.mon.strat = false ∧ v.mon.granted = false ∧ v.mon.retryEv = false ∧ v.mon.pollFalse = false
+
+/-- the runner's failure counters agree with the log -/
+def CntOK (v : View) : Prop :=
+  (∀ k, v.counts k = v.mon.classCount k) ∧ v.unknown ≤ v.mon.classCount .unknown
+
+/-- the top of the loop after `n` attempts -/
+def Rel (cfg : Cfg) (n : Nat) (v : View) : Prop :=
+  v.mon.ops = n ∧ v.mon.bad = false ∧ v.mon.done = false ∧ v.flt = false ∧ v.slack = 0 ∧ v.stop = none ∧
+  v.stopOk = true ∧ CntOK v ∧ (1 ≤ n → v.mon.slept = true) ∧ (n = 0 → v.noExc = true ∧ v.mon.mustOp = false) ∧
+  (n = 0 ∨ n < cfg.maxAttempts)
+
+/-- the failure of attempt `n` has been classified as `k`; the runner has not counted it yet -/
+def ClsA (k : EClass) (v : View) : Prop :=
+  v.mon.classified = true ∧ v.mon.lastClass = some k ∧
+  (∀ k', v.mon.classCount k' = if k' = k then v.counts k' + 1 else v.counts k') ∧
+  v.unknown + (if EClass.unknown = k then 1 else 0) ≤ v.mon.classCount .unknown
+
+/-- … the runner has counted it in `per_class_counts` -/
+def ClsB (k : EClass) (v : View) : Prop :=
+  v.mon.classified = true ∧ v.mon.lastClass = some k ∧ (∀ k', v.counts k' = v.mon.classCount k') ∧
+  v.unknown + (if EClass.unknown = k then 1 else 0) ≤ v.mon.classCount .unknown
+
+/-- … and in `unknown_attempts` -/
+def ClsC (k : EClass) (v : View) : Prop :=
+  v.mon.classified = true ∧ v.mon.lastClass = some k ∧ CntOK v
+
+/-- simp set that turns statements about the view of an explicit world into statements about fields -/
+macro "c03_simp" : tactic => `(tactic|
+  simp_all +zetaDelta [Core, NoStrat, CntOK, Rel, ClsA, ClsB, ClsC, bumpCount, view, cur_cons, clk_cons, flt_cons, hookRaise, Clock.tick,
+    isPrelude, step, classify, abortKind, abortRaise, isAttemptHook, stopOkOf, raisedBy, isOp,
+    Exn.isException, Exn.isAbort, Exn.isExhausted, Ans.dur])
+
+macro "c03_close" : tactic => `(tactic| all_goals (
+  (try subst_vars) <;> (try c03_simp) <;> (try (and_intros <;> (try simp_all [Ans.dur]) <;> omega))))
+
+/-- the operation is invoked -/
+theorem invokeOp_spec (cfg : Cfg) (n : Nat) (u : View) (hr : Rel cfg n u) (hn : n < cfg.maxAttempts)
+    (a : Nat) :
+    ⦃fun w => ⌜view cfg w = u⌝⦄ invokeOp a
+    ⦃post⟨fun _ w => ⌜Core cfg (n + 1) (view cfg w) ∧ NoStrat (view cfg w) ∧ CntOK (view cfg w) ∧
+                      (view cfg w).mon.classified = false ∧
+                      (view cfg w).mon.done = !cfg.resultClassifier⌝,
+          fun e w => ⌜Core cfg (n + 1) (view cfg w) ∧ NoStrat (view cfg w) ∧ CntOK (view cfg w) ∧
+                      (view cfg w).mon.classified = false ∧ (view cfg w).mon.done = false ∧
+                      (e.isException = true → raisedBy isOp w.trace e = true) ∧
+                      (e.isAbort = true → (view cfg w).mon.sawAbort = true)⌝⟩⦄ := by
+  simp only [Rel] at hr
+  mvcgen [invokeOp, ask]
+  c03_close
+
+
+/-- goals `Exc cfg e W` for an explicit world `W` whose newest exchange is the failing one -/
+macro "c03_exc" : tactic => `(tactic| first
+  | (refine exc_of_raise _ rfl rfl ?_ ?_ <;> c03_simp; done)
+  | (refine exc_plain _ (by simp) (by simp [Exn.isException, Exn.isAbort]) ?_ ?_ <;> c03_simp; done))
+
+macro "c03_done" : tactic => `(tactic| all_goals (
+  (try subst_vars) <;>
+  first
+    | c03_exc
+    | ((try c03_simp) <;>
+       (try (and_intros <;> (try intros) <;>
+             first
+               | omega
+               | (simp_all; done)
+               | (split <;> rename_i h <;>
+                    first
+                      | omega
+                      | (rw [← h]; omega))
+               | skip)))))
+
+theorem bump_self (f : EClass → Nat) (k : EClass) : bumpCount f k k = f k + 1 := by simp [bumpCount]
+
+theorem callClassifier_spec (cfg : Cfg) (n : Nat) (u : View) (hc : Core cfg n u) (hn : NoStrat u)
+    (hk : CntOK u) (hcl : u.mon.classified = false) (hd : u.mon.done = false) (e : Exn) :
+    ⦃fun w => ⌜view cfg w = u⌝⦄ callClassifier e
+    ⦃post⟨fun c w => ⌜Core cfg n (view cfg w) ∧ NoStrat (view cfg w) ∧ ClsA c.klass (view cfg w) ∧
+                      (view cfg w).mon.done = false⌝,
+          fun e w => ⌜Exc cfg e w⌝⟩⦄ := by
+  simp only [Core, NoStrat, CntOK] at hc hn hk
+  mvcgen [callClassifier, ask]
+  c03_done
+
+
+/-- a confirmed success in attempt `n` -/
+def Succ (n : Nat) (v : View) : Prop :=
+  v.mon.ops = n ∧ 1 ≤ n ∧ v.mon.bad = false ∧ v.flt = false ∧ v.mon.mustOp = false ∧ v.mon.done = true ∧
+  v.stop = none ∧ v.stopOk = true ∧ v.mon.granted = false
+
+macro "c03_simp" : tactic => `(tactic|
+  simp_all +zetaDelta [Succ, Core, NoStrat, CntOK, Rel, ClsA, ClsB, ClsC, bumpCount, view, cur_cons, clk_cons,
+    flt_cons, hookRaise, Clock.tick, isPrelude, step, classify, abortKind, abortRaise, isAttemptHook, stopOkOf,
+    raisedBy, isOp, Exn.isException, Exn.isAbort, Exn.isExhausted, Ans.dur])
+
+theorem shouldClassifyResult_spec (cfg : Cfg) (n : Nat) (u : View) (hc : Core cfg n u) (hn : NoStrat u)
+    (hk : CntOK u) (hcl : u.mon.classified = false) (hd : u.mon.done = !cfg.resultClassifier) (x : Nat) :
+    ⦃fun w => ⌜view cfg w = u⌝⦄ shouldClassifyResult cfg x
+    ⦃post⟨fun r w => ⌜match r with
+                      | none => Succ n (view cfg w)
+                      | some c => Core cfg n (view cfg w) ∧ NoStrat (view cfg w) ∧ ClsA c.klass (view cfg w) ∧
+                                  (view cfg w).mon.done = false⌝,
+          fun e w => ⌜Exc cfg e w⌝⟩⦄ := by
+  simp only [Core, NoStrat, CntOK] at hc hn hk
+  mvcgen [shouldClassifyResult, ask]
+  c03_done
+
+/-- the view after a poll that answered False -/
+def pollV (cfg : Cfg) (u : View) : View :=
+  if cfg.abortIf then { u with mon := { u.mon with pollFalse := u.mon.pollFalse || u.mon.strat } } else u
+
+/-- `check_abort`: a poll that answers False changes nothing but `pollFalse`; True ends the run -/
+theorem checkAbort_spec (cfg : Cfg) (tl : Bool) (u : View) (hs : u.stop = none) (hb : u.mon.bad = false)
+    (a : Nat) :
+    ⦃fun w => ⌜view cfg w = u⌝⦄ checkAbort cfg tl a
+    ⦃post⟨fun _ w => ⌜view cfg w = pollV cfg u⌝, fun e w => ⌜Exc cfg e w⌝⟩⦄ := by
+  have he := fun v hok hb hm => emit_v cfg tl v hok hb hm .aborted rfl a 0 none none (some .aborted) none none
+  mvcgen [checkAbort, ask, setStop, modifyRS, he]
+  c03_done
+  all_goals (simp_all [pollV])
+  all_goals (trace_state; sorry)
+
 end Redress.Props.C03
